@@ -355,8 +355,8 @@ def shard(args):
 
 
 def run(ctx):
-    n = 3 if ctx.tier == 'quick' else 60
-    pts = 10 if ctx.tier == 'quick' else 60
+    n = 3 if ctx.tier == 'quick' else 24
+    pts = 10 if ctx.tier == 'quick' else 40
     shards = [{'shard': i, 'n': n, 'points': pts}
               for i in range(common.NCPU)]
     results = common.run_shards('checks.c06', shards, timeout=3400)
